@@ -559,10 +559,11 @@ def _r5(chk, repo):
     from ..pathtable import walk as _walk
     gv = _cfn(repo, dens, gfn, 2)
     rows = {}
+    from .common import kw_sorted
     for val in (True, False):
         k_, r_ = _walk(gv, {pn("self.FD_enabled"): val}, pn)
-        rows[val] = pn(r_) if k_ == "return" else None
-    ok = rows[True] in (pn("cuqi.utilities.approx_gradient(self.logd,*args,**kwargs,epsilon=self.FD_epsilon)"), pn("approx_gradient(self.logd,*args,**kwargs,epsilon=self.FD_epsilon)")) \
+        rows[val] = pn(kw_sorted(r_)) if k_ == "return" else None          # keywords in one order: f(**kw, e=1) is f(e=1, **kw)
+    ok = rows[True] in (pn("cuqi.utilities.approx_gradient(self.logd,*args,epsilon=self.FD_epsilon,**kwargs)"), pn("approx_gradient(self.logd,*args,epsilon=self.FD_epsilon,**kwargs)")) \
         and rows[False] == pn("self._gradient(*args,**kwargs)")
     chk.add("C03-R5", f"{dens.qual}.gradient", ok, site(repo, gfn), "FD_enabled -> approx_gradient(self.logd, ..., epsilon=self.FD_epsilon); else self._gradient",
             "the finite-difference branch does not differentiate self.logd under FD_enabled, or the analytic branch is not its complement", gfn)
